@@ -28,7 +28,9 @@ FILES = {
     "B": (f"EventType D0 K- pi+ pi+ pi-\nFastCoherentSum::UseCartesian 0\nD0{{{V1},PiPi10[kMatrix.pole.1]{{pi+,pi-}}}} 0 0.7 0.1 0 1.0 0.2\n"
           f"D0{{K(1460)bar-{{{V1},pi-}},pi+}} 2 1 0 2 0 0\nD0{{K(1)(1270)bar-,pi+}} 0 0.2 0.1 0 0.1 0.1\nK(1)(1270)bar-{{omega(782)0{{pi+,pi-}},K-}} 0 0.7 0.1 0 -0.4 0.1\nf_scatt0 2 0.2 0\nf_scatt1 2 0.3 0\nIS_p1_pipi 2 0.2 0\nIS_p1_KK 2 0.1 0\nsA 2 1 0\nsA_0 2 -0.15 0\n"
           "s0_prod 2 -1 0\ns0_scatt 2 -3 0\nD0_radius 0 0.0037 0.001\n"),
-    "C": f"EventType D0 K- pi+ pi+ pi-\nFastCoherentSum::UseCartesian 1\nD0{{omega(782)0{{pi+,pi-}},{V1}}} 0 0.5 0.1 0 2.0 0.2\nD0[D]{{{V2},{V1}}} 0 0.25 0.1 0 -1.0 0.2\n",
+    # same decay structure as A, other couplings, cartesian option on (a "twin": equal trees, different numbers)
+    "C": (f"EventType D0 K- pi+ pi+ pi-\nFastCoherentSum::UseCartesian 1\nD0[P]{{{V1},{V2}}} 0 0.25 0.1 0 -1.0 0.2\nD0{{K(1)(1270)bar-,pi+}} 2 0.9 0.1 2 0.3 0.2\nD0{{{V1},PiPi00{{pi+,pi-}}}} 0 0.4 0.1 0 0.6 0.1\n"
+          f"K(1)(1270)bar-{{{V1},pi-}} 0 0.1 0.1 0 0.7 0.1\nK(1)(1270)bar-[D]{{rho(770)0,K-}} 0 0.3 0.1 0 0.2 0.1\nrho(770)0{{pi+,pi-}} 2 1 0 2 0 0\n"),
     "D": ("EventType D0 K- pi+ pi+ pi-\n"
           + "".join(f"{r}::Spline::Min 0.18\n{r}::Spline::Max 1.9\n{r}::Spline::N 2\n" for r in ("a(1)(1260)+", "K(1)(1270)bar-", "K(2)*(1430)bar-"))
           + f"D0{{a(1)(1260)+[GSpline.EFF]{{{V2},pi+}},K-}} 0 0.5 0.1 0 2.0 0.2\n"
